@@ -346,11 +346,13 @@ func (s *Recursive) buildTupleMapperForID(ctx context.Context, req *Request, edg
 		iter = iterator.Concat(ctxIter, iter)
 	}
 	iterFilters := make([]iterator.FilterFunc[*openfgav1.TupleKey], 0, 2)
-	iterFilters = append(iterFilters, BuildUniqueTupleKeyFilter(visited, uniqueKeyFunc))
 	conditions := edge.GetConditions()
 	if len(conditions) > 0 && (len(conditions) > 1 || conditions[0] != authzGraph.NoCond) {
 		iterFilters = append(iterFilters, BuildConditionTupleKeyFilter(ctx, s.model, conditions, req.GetContext()))
 	}
+	// the unique filter records the key as visited, so it must run last: a tuple
+	// rejected by its condition must not hide another tuple that reaches the same key.
+	iterFilters = append(iterFilters, BuildUniqueTupleKeyFilter(visited, uniqueKeyFunc))
 	i := iterator.NewFilteredIterator(iter, iterFilters...)
 	return storage.WrapIterator(kind, i), nil
 }
